@@ -73,8 +73,10 @@ Completions(part) ==
 ScriptFor(b) ==
     CASE Domain = "frame" ->
             << [op |-> "reset", sid |-> "MC_Bytes"], [op |-> "parse_all", b |-> b] >>
-            \o (IF Len(b) >= 2 /\ \E f \in 1..Len(Family) : Family[f][1] = b[2]
-                THEN << [op |-> "parse", kind |-> "custom", fam |-> (CHOOSE f \in 1..Len(Family) : Family[f][1] = b[2]) - 1, b |-> b] >>
+            \* every third-party definition declaring this packet type, one after the other on the same string
+            \o (IF Len(b) >= 2
+                THEN LET fs == SetToSortSeq({ f \in 1..Len(Family) : Family[f][1] = b[2] }, <)
+                     IN  [i \in 1..Len(fs) |-> [op |-> "parse", kind |-> "custom", fam |-> fs[i] - 1, b |-> b]]
                 ELSE <<>>)
       [] Domain = "sdes" -> << [op |-> "reset", sid |-> "MC_Bytes"], [op |-> "parse", kind |-> "sdes", b |-> b] >>
       [] Domain = "fci"  -> << [op |-> "reset", sid |-> "MC_Bytes"], [op |-> "parse", kind |-> Variant(b[2]), b |-> b] >>
